@@ -43,7 +43,10 @@ def units(tier):
     for n in range(0, n1 + 1):
         parts = [None] if n < 4 else list(range(len(PART_CHARS)))
         for p in parts:
-            us.append({"name": f"str_n{n}" + (f"_p{p}" if p is not None else ""), "shape": {"kind": "raw", "n": n, "hi": 0x7FF, "sur": False, "part": p}})
+            # the largest length is split on the class of the second character as well (parallelism only)
+            p2s = list(range(len(PART_CHARS))) if (n == n1 and n >= 5) else [None]
+            for p2 in p2s:
+                us.append({"name": f"str_n{n}" + (f"_p{p}" if p is not None else "") + (f"_q{p2}" if p2 is not None else ""), "shape": {"kind": "raw", "n": n, "hi": 0x7FF, "sur": False, "part": p, "part2": p2}})
     n2 = 3 if tier == "quick" else 4
     for n in range(1, n2 + 1):
         parts = [None] if n < 3 else list(range(len(PART_CHARS)))
@@ -60,7 +63,7 @@ def units(tier):
     # positions see every short string even where the whole-string bound does not reach
     kf = 4 if tier == "quick" else 6
     for name, pre, post, k0 in (("hdr", "(", "=x)", 1), ("val", "(a=", ")", 1), ("rule", "(a:", ":=x)", 1), ("dnrule", "(a:dn:", ":=x)", 1), ("norule", "(:", ":=x)", 1), ("sub", "(a=b*", ")", 1), ("nest", "(&(a=b)", ")", 1)):
-        for k in range(k0, (kf if name in ("hdr", "val") else kf - 1) + 1):
+        for k in range(k0, (kf if name == "hdr" else kf - 1) + 1):
             us.append({"name": f"frame_{name}_k{k}", "shape": {"kind": "win", "sent": pre + "a" * k + post, "off": len(pre), "k": k, "mode": "replace"}})
     # degenerate concrete strings (nothing symbolic): empty components between separators
     for i, t in enumerate(["(a::=x)", "(::=x)", "(a:dn::=x)", "(:dn::=x)", "(a:=)", "(=x)", "(a=)", "(a:dn:=x)", "(:=x)", "(a;=x)", "(a;;b=x)", "(a=*)", "(a=**)", "(a=*b**c)", "()", "(&)", "(|)", "(!)", "(!(a=b)(c=d))", "(a=b)(c=d)", "((a=b))", "(a=b", "a=b)", "(a=\\)", "(a=\\5)", "(a=\\5g)", "(a=b*\\zz)", "(a=b*c*\\zz*d)"]):
@@ -128,6 +131,14 @@ def body(ctx, shape):
                 ctx.assume(ctx.all(*[first != o for o in others]))
             else:
                 ctx.assume(ctx.any(*[first == ord(ch) for ch in cls]))
+        if shape.get("part2") is not None and n > 1:
+            cls = PART_CHARS[shape["part2"]]
+            second = _ord(ctx, s, 1)
+            if cls is None:
+                others = [ord(ch) for grp in PART_CHARS[:-1] for ch in grp]
+                ctx.assume(ctx.all(*[second != o for o in others]))
+            else:
+                ctx.assume(ctx.any(*[second == ord(ch) for ch in cls]))
     else:
         sent, off, k = shape["sent"], shape["off"], shape["k"]
         w = ctx.str("w", k, 0, 0x7FF)
